@@ -168,8 +168,8 @@ def sym_env(cfg: CFG, path: List[Edge], init: Optional[Dict[str, ast.expr]] = No
                 # bound by unpacking / iteration: the name denotes itself
                 env.pop(name, None)
             else:
-                if n.meta.get('inlined_param'):
-                    continue   # helper parameters are substituted by expand_inlined
+                if n.meta.get('inlined_param') and isinstance(v, ast.Name) and v.id == name:
+                    continue   # `x = x` binding of a helper parameter to the same-named variable
                 env[name] = subst(expand_inlined(cfg, v), env)
         elif n.kind == 'del_name':
             env.pop(n.meta['name'], None)
